@@ -134,9 +134,10 @@ class RunId(object):
         if self._expandend_env is not None:
             return self._expandend_env
 
-        self._expandend_env = self.benchmark.run_details.env
-        for key, value in self._expandend_env.items():
-            self._expandend_env[key] = expand_user(value, False)
+        # the configured env is part of the run's identity and remains as it is
+        self._expandend_env = {
+            key: expand_user(value, False)
+            for key, value in self.benchmark.run_details.env.items()}
         return self._expandend_env
 
     @property
